@@ -65,6 +65,32 @@ def user_noise(files, spec):
             pass
 
 
+class FsEnv:
+    """A working directory in which the configured (relative) Dezyne file name exists - as a
+    symbolic link to a differently named file.  The name is only a name to the generator."""
+
+    def __init__(self, filename):
+        import tempfile
+        self.old = os.getcwd()
+        self.root = tempfile.mkdtemp(prefix='vf_fsenv_')
+        cwd = os.path.join(self.root, 'a', 'b', 'cwd')
+        os.makedirs(cwd)
+        os.chdir(cwd)
+        if not os.path.isabs(filename) and filename:
+            target = os.path.normpath(os.path.join(cwd, filename))
+            if target.startswith(self.root + os.sep):
+                os.makedirs(os.path.dirname(target), exist_ok=True)
+                real = os.path.join(os.path.dirname(target), 'Decoy_r2.dzn')
+                with open(real, 'w', encoding='utf-8') as fh:
+                    fh.write('interface Decoy { in void e(); behaviour { on e: {} } }\n')
+                os.symlink('Decoy_r2.dzn', target)
+
+    def close(self):
+        import shutil
+        os.chdir(self.old)
+        shutil.rmtree(self.root, ignore_errors=True)
+
+
 def main():
     sys.path.insert(0, os.path.dirname(os.path.dirname(os.path.abspath(__file__))))
     import dznpy
@@ -96,7 +122,12 @@ def main():
                     from dznpy.adv_shell import Builder
                     shared = Builder()
                 builder = shared  # one Builder instance for the whole batch
-            kind, res = cfgspec.outcome(spec, model=case['model'], builder=builder)
+            env = FsEnv(spec['filename']) if case.get('fs_env') else None
+            try:
+                kind, res = cfgspec.outcome(spec, model=case['model'], builder=builder)
+            finally:
+                if env:
+                    env.close()
             if case.get('user_noise') and kind == 'ok':
                 user_noise(res, spec)
                 kind, res = cfgspec.outcome(spec, model=case['model'], builder=builder)
